@@ -20,6 +20,24 @@ REL = {"c02": ["C02"], "c03": ["C03", "C04"], "c04": ["C04", "C09"], "c06": ["C0
        "c12": ["C12", "C03", "C04"], "c13": ["C13", "C06"], "c14": ["C14", "C01"], "c15": ["C15", "C10"],
        "c16": ["C16", "C01"], "c17": ["C17", "C05", "C15"], "c18": ["C18"]}
 ALL = ["C%02d" % i for i in range(1, 19)]
+PARSER = ["C03", "C04", "C06", "C09", "C10", "C12", "C13"]
+TRANSPORT = ["C01", "C02", "C05", "C07", "C08", "C10", "C11", "C14", "C15", "C16", "C17"]
+
+def relevant_ids(patch):
+    """Checks that execute the files a patch touches (ISO_AUTO=1): a change under src/parser cannot influence
+    the transport checks and vice versa; src/util.rs also carries ArrayBuf (C18); src/lib.rs is glue for both."""
+    files = [l[6:].strip() for l in open(patch) if l.startswith("+++ b/")]
+    ids = set()
+    for f in files:
+        if f.startswith("src/parser/"):
+            ids.update(PARSER)
+        elif f.startswith("src/transport/"):
+            ids.update(TRANSPORT)
+        elif f == "src/util.rs":
+            ids.update(TRANSPORT + ["C18"])
+        else:
+            ids.update(ALL)
+    return sorted(ids)
 
 def sh(cmd, cwd=None):
     return subprocess.run(cmd, shell=True, cwd=cwd, text=True, stdout=subprocess.PIPE, stderr=subprocess.STDOUT)
@@ -101,6 +119,8 @@ def main():
             ids = ALL
             if os.environ.get("ISO_IDS"):
                 ids = os.environ["ISO_IDS"].split(",")
+            elif os.environ.get("ISO_AUTO"):
+                ids = relevant_ids(os.path.join(d, "patch.diff"))
             res, det = run_patch(os.path.join(d, "patch.diff"), ids)
             line = "%s %s" % (name, " ".join("%s=%s" % kv for kv in res.items()))
             print(line, flush=True)
